@@ -25,16 +25,19 @@
 EXTENDS Integers, Sequences, FiniteSets, TLC, Json, IOUtils
 
 Rec == ndJsonDeserialize(IOEnv.TRACE)
-VARIABLES l, bad, cfg, globalOks
-tvars == <<l, bad, cfg, globalOks>>
+VARIABLES l, bad, cfg, globalOks, sw
+tvars == <<l, bad, cfg, globalOks, sw>>
 SetOf(q) == {q[i] : i \in DOMAIN q}
 
 \* collectors' own filters (the records of spec/Dispatch; the dynamic flag is on in these scenarios)
 StaticPart(f, c) == c.lvl <= f.thr /\ c.tgt \in SetOf(f.tgts)
+\* a switchable collector (kind "sw") accepts nothing while it is off; it starts off, is flipped by its own thread (which
+\* then rebuilds the interest cache), and sw is the set of collectors that are on
 Accepts(f, c) == StaticPart(f, c)
 FilterOf(d) == (CHOOSE i \in DOMAIN cfg.collectors : cfg.collectors[i].d = d)
 Known(d) == \E i \in DOMAIN cfg.collectors : cfg.collectors[i].d = d
-Expect(d, c) == IF d # 0 /\ Known(d) /\ Accepts(cfg.collectors[FilterOf(d)].f, c) THEN d ELSE 0
+On(d) == cfg.collectors[FilterOf(d)].f.kind # "sw" \/ d \in sw
+Expect(d, c) == IF d # 0 /\ Known(d) /\ On(d) /\ Accepts(cfg.collectors[FilterOf(d)].f, c) THEN d ELSE 0
 
 \* C12: reload values in effect during [s, e]
 \* (a reloadable Option<filter> whose value is None is an absent layer: everything passes)
@@ -75,15 +78,16 @@ Ok(r) ==
     [] r.ev = "final" -> FinalOk(r)
     [] OTHER -> TRUE
 
-TraceInit == l = 0 /\ bad = << >> /\ cfg = [has_reload |-> FALSE, collectors |-> << >>, reloads |-> << >>, values |-> << >>] /\ globalOks = 0
+TraceInit == l = 0 /\ bad = << >> /\ cfg = [has_reload |-> FALSE, collectors |-> << >>, reloads |-> << >>, values |-> << >>] /\ globalOks = 0 /\ sw = {}
 TraceNext ==
   /\ l < Len(Rec)
   /\ l' = l + 1
   /\ LET r == Rec[l + 1] IN
        IF r.ev = "reset" THEN cfg' = [has_reload |-> r.has_reload, collectors |-> r.collectors, reloads |-> r.reloads, values |-> r.values]
-                              /\ globalOks' = 0 /\ bad' = bad
+                              /\ globalOks' = 0 /\ bad' = bad /\ sw' = {}
        ELSE /\ cfg' = cfg
             /\ globalOks' = (IF r.ev = "op" /\ r.op = "set_global" /\ r.ok THEN globalOks + 1 ELSE globalOks)
+            /\ sw' = (IF r.ev = "op" /\ r.op = "switch" THEN (IF r.on THEN sw \cup {r.d} ELSE sw \ {r.d}) ELSE sw)
             /\ bad' = (IF Ok(r) THEN bad ELSE Append(bad, l + 1))
 TraceSpec == TraceInit /\ [][TraceNext]_tvars
 Report == l = Len(Rec) => PrintT("@@BAD " \o ToJson(bad))
